@@ -240,7 +240,11 @@ theorem g2_step {s L} (op : Op) (hk : K s L) (h : G2 s) : G2 (step s op) := by
   | fireD d =>
     simp only [step]; split
     · rename_i hc; exact g2_fireD d hk h hc
-    · exact h.plain rfl rfl rfl rfl rfl rfl rfl (by simp)
+    · split
+      · exact h.plain rfl rfl rfl rfl rfl rfl rfl (by simp)
+      · simp only [fireDIn]; split
+        · exact h.plain rfl rfl rfl rfl rfl rfl rfl (by simp)
+        · exact h.plain rfl rfl rfl rfl rfl rfl rfl (by simp)
   | ret r =>
     simp only [step]
     split
